@@ -190,6 +190,72 @@ def gen_exhaustive(depth):
         for p in prefixes: rec(p, depth if K in ("MCM", "MNN") or depth < 3 else 2)
     return out
 
+# ------------------------------------------------------------------------------------------------ nested-handle (list) generator
+# nodes with a member handle `next`, k outer handles (coq/C12/Nested.v).  The ownership graph is kept acyclic
+# (docs/audit/C12.md: an object that owns itself is out of scope); everything else is generated, in particular
+# v = v->next / v = std::move(v->next) on unique, shared and branching chains.
+def gen_list(rng, nops):
+    k = 2 + rng.below(3)
+    var = [None] * k; nxt = {}; nn = 0; ops = []
+    def cnt(o): return sum(1 for x in var if x == o) + sum(1 for a in nxt if nxt[a] == o and a in alive)
+    alive = set()
+    def reaches(a, b):      # b reachable from a along next
+        seen = 0
+        while a is not None and seen < 1000:
+            if a == b: return True
+            a = nxt.get(a); seen += 1
+        return False
+    def collect():
+        changed = True
+        while changed:
+            changed = False
+            for o in list(alive):
+                if cnt(o) == 0: alive.discard(o); changed = True
+    guard = 0
+    while len(ops) < nops and guard < 30 * nops:
+        guard += 1
+        r = rng.below(100); v = rng.below(k); w = rng.below(k)
+        if r < 22:
+            ops.append("NN,%d" % v); var[v] = nn; nxt[nn] = None; alive.add(nn); nn += 1
+        elif r < 32: ops.append("CP,%d,%d" % (v, w)); var[v] = var[w]
+        elif r < 40: ops.append("RS,%d" % v); var[v] = None
+        elif r < 62:
+            if var[v] is None: 
+                if r < 42: ops.append("LK,%d,%d" % (v, w))          # -> on an empty handle: skipped by both sides
+                continue
+            if var[w] is not None and reaches(var[w], var[v]): continue    # would close a cycle
+            ops.append("LK,%d,%d" % (v, w)); nxt[var[v]] = var[w]
+        elif r < 84:
+            if rng.below(100) < 60: w = v                                    # consume from the head
+            if var[w] is None:
+                if r < 64: ops.append("FN,%d,%d" % (v, w))
+                continue
+            ops.append("FN,%d,%d" % (v, w)); var[v] = nxt[var[w]]
+        else:
+            if rng.below(100) < 60: w = v
+            if var[w] is None: continue
+            ops.append("MN,%d,%d" % (v, w)); src = nxt[var[w]]
+            if var[v] != src: nxt[var[w]] = None; var[v] = src
+        collect()
+    return "list %d %s" % (k, " ".join(ops))
+
+LIST_PREFIXES = ["NN,0 NN,1 LK,1,0 RS,0",                         # v1 -> n1 -> n0
+                 "NN,0 NN,1 LK,1,0 NN,0 LK,0,1 RS,1",             # v0 -> n2 -> n1 -> n0
+                 "NN,0 NN,1 LK,1,0 CP,0,1",                       # two heads on the same chain
+                 "NN,0 NN,1 LK,1,0 NN,2 LK,2,0 RS,0"]             # two chains sharing their tail
+def list_exhaustive(depth):
+    A = []
+    for v in range(3):
+        A += ["NN,%d" % v, "RS,%d" % v]
+        for w in range(3): A += ["CP,%d,%d" % (v, w), "FN,%d,%d" % (v, w), "MN,%d,%d" % (v, w)]
+    out = []
+    def rec(prefix, d):
+        out.append("list 3 " + prefix)
+        if d == 0: return
+        for a in A: rec(prefix + " " + a, d - 1)
+    for p in LIST_PREFIXES: rec(p, depth)
+    return out
+
 # ------------------------------------------------------------------------------------------------ concurrent generator
 def prog_ops(p):
     """(estimated) scheduling points of a thread program: its letters plus the final drops of what it still holds"""
@@ -248,6 +314,7 @@ def conc_cases(rng, thorough):
 corpus = [l.strip() for l in open(os.path.join(verif.VERIF, "corpus", "C12", "cases.txt")) if l.strip() and not l.startswith("#")]
 seq_cases = [c for c in corpus if c.startswith("seq ")]
 cc_cases = [c for c in corpus if c.startswith("conc ")]
+list_cases = [c for c in corpus if c.startswith("list ")]
 ncorpus = len(seq_cases); ncorpus_conc = len(cc_cases)
 nexh = 0
 run_stress = True
@@ -256,6 +323,7 @@ if ck.replay:
     c = str(rp.get("case", ""))
     seq_cases = [c] if c.startswith("seq ") else []
     cc_cases = [c] if c.startswith("conc ") else []
+    list_cases = [c] if c.startswith("list ") else []
     run_stress = c.startswith("stress")
     ncorpus = 0; ncorpus_conc = 0
 else:
@@ -265,6 +333,8 @@ else:
     for k in range(N):
         seq_cases.append(gen_seq(rng, 8 + rng.below(50), k % 5))
     cc_cases += conc_cases(rng, ck.thorough())
+    list_cases += list_exhaustive(3 if ck.thorough() else 2)
+    for k in range(20000 if ck.thorough() else 2500): list_cases.append(gen_list(rng, 6 + rng.below(30)))
 casefile = os.path.join(ck.scratch, "seq_cases.txt")
 open(casefile, "w").write("\n".join(seq_cases) + ("\n" if seq_cases else ""))
 
@@ -289,20 +359,7 @@ def first_failing(cmd_of, cases, nprinted):
     return None, ""
 
 # ------------------------------------------------------------------------------------------------ sequential part
-# Two groups of cases fail on tlx as shipped (docs/audit/C12.md, fixes/C12/01..02): handles stored inside managed objects
-# (assignment / reset re-entrancy) and use_count() of an empty handle.  Until the coordinator has decided about the fixes
-# they are run but only reported as "open finding" notes; once corpus/C12/<name>.enabled exists they are checked like
-# everything else (a failure is a VIOLATION).
-def gate(name):
-    return os.path.exists(os.path.join(verif.VERIF, "corpus", "C12", name + ".enabled")) or name in os.environ.get("VERIF_C12_GATES", "").split(",")
-open_findings = []
-def open_finding(what, replay, key):
-    if gate(key): return ck.violation(what, replay)
-    if key not in [k for k, _ in open_findings]:
-        open_findings.append((key, what)); ck.say("# C12: open finding (not counted, see docs/audit/C12.md; enable with corpus/C12/%s.enabled): %s" % (key, what))
-    return False
-
-exe, log = ck.build_cpp("c12_seq", ["harness/C12/cptr_harness.cpp"], extra=(["-DC12_EMPTY_USE_COUNT"] if gate("empty_use_count") else []))
+exe, log = ck.build_cpp("c12_seq", ["harness/C12/cptr_harness.cpp"])
 drv, dlog = ck.ocaml_driver("C12")
 if exe is None:
     ck.violation("correspondence harness does not compile against /repo", {"correspondence": "harness/C12/cptr_harness.cpp", "log": log[-2000:]}, no_input=True)
@@ -340,6 +397,38 @@ elif seq_cases:
                              {"case": c, "impl": a, "model": b, "correspondence": "harness/C12/cptr_harness.cpp vs coq/C12/CPtr.v"}, no_input=True)
             if ck.violations >= 3: break
         samples = [{"case": seq_cases[i], "result": impl[i]} for i in (0, ncorpus + 40, ncorpus + nexh + 1) if i < len(impl)]
+
+# ------------------------------------------------------------------------------------------------ nested handles: list histories vs Nested.v
+list_stats = {"list_cases": len(list_cases), "list_nontrivial": 0}
+if list_cases and drv is not None:
+    lexe, llog = ck.build_cpp("c12_list", ["harness/C12/list_harness.cpp"])
+    if lexe is None:
+        ck.violation("list harness does not compile against /repo", {"correspondence": "harness/C12/list_harness.cpp", "log": llog[-2000:]}, no_input=True)
+    else:
+        lfile = os.path.join(ck.scratch, "list_cases.txt"); open(lfile, "w").write("\n".join(list_cases) + "\n")
+        rc1, out1 = verif.sh([lexe, lfile], timeout=3000, env=dict(os.environ, ASAN_OPTIONS="detect_leaks=1"))
+        rc2, out2 = verif.sh([drv, lfile], timeout=3000)
+        impl = out1.splitlines(); model = out2.splitlines()
+        if rc1 != 0:
+            found = True
+            c, o = first_failing(lambda one: [lexe, one], list_cases, sum(1 for l in impl if re.search(r" P=\S+$", l.strip()) and ";" in l))
+            ck.violation("CountingPtr crashes (assert/ASan/UBSan) on a history with handles inside managed objects", {"case": c, "log_tail": crash_excerpt(o or out1)})
+        else:
+            for idx, c in enumerate(list_cases):
+                a = impl[idx].strip() if idx < len(impl) else "<missing>"
+                b = model[idx].strip() if idx < len(model) else "<missing>"
+                if "MODEL-LEDGER-BAD" in b:
+                    ck.violation("generator/model self-check failed: " + b[-60:], {"case": c, "model": b}, no_input=True); break
+                # non-trivial: a node is destroyed by an assignment from a member (FN/MN with v == w) somewhere in the case
+                if re.search(r"(FN|MN),(\d),\2", c) and re.search(r";[0-9>.\-]*1>", b.split(" F:")[0]): list_stats["list_nontrivial"] += 1; distinct.add(c)
+                if not a.endswith("P=ok"):
+                    found = True
+                    ck.violation("CountingPtr violates the property on this history with handles inside objects: " + a[a.rfind("P="):][:150], {"case": c, "impl": a, "model": b})
+                elif a != b:
+                    ck.violation("implementation differs from the proven nested-handle model: impl=%s model=%s" % (a[-100:], b[-100:]),
+                                 {"case": c, "impl": a, "model": b, "correspondence": "harness/C12/list_harness.cpp vs coq/C12/Nested.v"}, no_input=True)
+                if ck.violations >= 3: break
+            if impl: samples.append({"case": list_cases[min(len(list_cases) - 1, len(corpus))], "result": impl[min(len(impl) - 1, len(corpus))]})
 
 # ------------------------------------------------------------------------------------------------ concurrent part: interleavings under the shim
 conc_stats = {"conc_cases": len(cc_cases), "mandatory_scenarios_fully_enumerated": 0, "traces_with_unify_clone": 0, "interleavings": 0, "exhaustive_cases": 0, "distinct_traces": 0, "preempted_traces": 0, "max_depth": 0}
@@ -407,10 +496,12 @@ if cc_cases and drv is not None:
 
 # ------------------------------------------------------------------------------------------------ handles inside managed objects
 # In scope (docs/audit/C12.md): a history is in scope iff no object is (transitively) owned by itself and no handle is
-# assigned to while it is being destroyed.  Acyclic chains, trees, shared children, containers of handles are; an object that
-# keeps itself alive through a member handle is not: those scenarios are run for information only and never enter the verdict.
-NESTED_EXPECTED_OK = ["traverse", "cascade", "tree_swap_unify", "shared_child", "container", "tree"]
-NESTED_OPEN = ["pop_copy", "pop_move", "pop_conv_copy", "pop_all", "empty_use_count"]       # fail on tlx as shipped: findings F1, F3
+# assigned to while it is being destroyed.  Acyclic chains (consumed by head = head->next / std::move(head->next) / the
+# converting overloads: defect fixed in ccc5d47), trees, shared children, containers of handles are; an object that keeps
+# itself alive through a member handle is not: those scenarios are run for information only and never enter the verdict.
+# The scenarios named in the corpus ("nested <scenario>": the witnesses of ccc5d47 and 87f867d) run first.
+NESTED_ALL = ["pop_copy", "pop_move", "pop_conv_copy", "pop_all", "empty_use_count",
+              "traverse", "cascade", "tree_swap_unify", "shared_child", "container", "tree"]
 NESTED_INFO = ["self_reset", "self_assign_null", "self_move_assign", "self_copy_assign"]  # out of scope (self-owning object)
 nested_stats = {}
 nested_info = {}
@@ -419,7 +510,8 @@ if not ck.replay or str(rp.get("case", "")).startswith("nested "):
     if nexe is None:
         ck.violation("nested-handle harness does not compile against /repo", {"correspondence": "harness/C12/nested_harness.cpp", "log": nlog[-2000:]}, no_input=True)
     else:
-        todo = NESTED_EXPECTED_OK + NESTED_OPEN + NESTED_INFO
+        first = [c.split()[1] for c in corpus if c.startswith("nested ")]
+        todo = first + [sc for sc in NESTED_ALL if sc not in first] + NESTED_INFO
         if ck.replay: todo = [str(rp["case"]).split()[1]]
         for sc in todo:
             rcn, outn = verif.sh([nexe, sc], timeout=120, env=dict(os.environ, ASAN_OPTIONS="detect_leaks=1"))
@@ -430,8 +522,7 @@ if not ck.replay or str(rp.get("case", "")).startswith("nested "):
                 found = True
                 what = ("use_count() of an empty handle (scenario %s): %s" if sc == "empty_use_count" else "handles inside managed objects, scenario %s: %s") % (sc, (outn.strip().splitlines() or ["?"])[-1][:120] if rcn == 0 else "crash (assert/ASan/UBSan): " + (re.search(r"(ERROR: AddressSanitizer: [^\n]*|Assertion[^\n]*|runtime error: [^\n]*)", outn) or re.search(r".*", outn)).group(0)[:160])
                 rpl = {"case": "nested " + sc, "log_tail": crash_excerpt(outn)}
-                if sc in NESTED_OPEN: open_finding(what, rpl, "empty_use_count" if sc == "empty_use_count" else "nested")
-                else: ck.violation(what, rpl)
+                ck.violation(what, rpl)
         samples.append({"case": "nested <scenario>", "result": nested_stats})
 # ------------------------------------------------------------------------------------------------ real-thread stress run
 stress_stats = {}
@@ -459,7 +550,7 @@ if pr is not None and not pr["ok"]:
     ck.proof_broken(found)
 
 ck.finish({
-    "evaluations": len(seq_cases) + conc_stats["interleavings"],
+    "evaluations": len(seq_cases) + len(list_cases) + conc_stats["interleavings"],
     "distinct_nontrivial": len(distinct),
     "rule": "(1) handle-operation histories over 2..8 typed handle variables (M CountingPtr<Obj>, C CountingPtr<const Obj>, N CountingPtrNoDelete<Obj>, B CountingPtr<Base> with Obj : Pad, Base so that Derived->Base conversions adjust the pointer; handles of different kinds share objects through get() and through adoption of raw pointers - also of objects that have no handle any more) and as many objects as the history creates: "
             "corpus; every well-typed operation sequence of length <= 2 (quick) / 3 (thorough) over 3 variables of kinds MCM / MNN / MCN / MBB after 13 aliasing prefixes (incl. a default and a no-delete handle on one object); "
@@ -470,19 +561,19 @@ ck.finish({
             "(2) 2-4 real threads running programs over every mutating and observing member (copy/move construction and assignment, converting overloads, reset, swap, unify, unique/use_count, a no-delete handle) on one shared object and the clones unify() makes, under a deterministic scheduler (std::atomic inside tlx redirected by a force-included shim): "
             "every atomic operation (read-modify-write, plain load, plain store), the Deleter call and the element's copy constructor (inside unify()) are scheduling points; a fixed list of small scenarios (k = 2,3,4 threads each dropping their last handle at the same time, copy+drop against drop, use against the last releases, unify() against the release of the only other handle / another unify / two releases, every other member against a release) is ALWAYS enumerated completely, the other programs completely when they fit the budget, else sampled; the Deleter passed to CountingPtr counts its calls (exactly 1 required) and defers the release of the memory, so a double destruction is a reported verdict with its schedule, not a crash; every logged event trace (fetch_add/fetch_sub with the value read, Deleter, use) is projected onto each object and replayed on the extracted transition system of Conc.v (unify = clone-read + release on the original; the clone is a new instance). "
             "non-trivial = a thread is preempted between two of its shared actions; distinct = distinct event trace. "
-            "(2b) fixed scenarios with handles INSIDE managed objects (lists consumed by head = head->next / std::move(head->next), an object keeping itself alive, swap/unify with member handles, a 2000-node cascade): destructor log + ASan only, outside the Coq model; those that fail on tlx as shipped are reported as open findings until enabled. (3) real-thread stress with real std::atomic (2 and 3 threads; per round 1e5 mixed handle operations per thread on one shared object, then a release race: every thread lets go of each of 20000 objects at the same moment behind a per-object spin barrier, with a Deleter that counts its calls - every object must see exactly one; TSan build in the thorough tier): counted only in input_distribution.",
+            "(1b) histories over nodes with a member handle `next` and 2-4 outer handles (new node, copy, reset, v->next = w, v = w->next, v = std::move(w->next); acyclic ownership): every sequence of length <= 2 (quick) / 3 (thorough) after 4 list-shaped prefixes plus random histories, compared step by step (node and use_count of every outer handle, destructor log, successor of every live node) with the extracted model of coq/C12/Nested.v; non-trivial = a node is destroyed by an assignment whose source is a member of that node. (2b) fixed scenarios with handles INSIDE managed objects (lists consumed by head = head->next / std::move(head->next), an object keeping itself alive, swap/unify with member handles, a 2000-node cascade): destructor log + ASan only, outside the Coq model; all part of the verdict (the list-consuming ones are the witnesses of ccc5d47); self-owning objects are out of scope and informational. (3) real-thread stress with real std::atomic (2 and 3 threads; per round 1e5 mixed handle operations per thread on one shared object, then a release race: every thread lets go of each of 20000 objects at the same moment behind a per-object spin barrier, with a Deleter that counts its calls - every object must see exactly one; TSan build in the thorough tier): counted only in input_distribution.",
     "samples": samples,
     "input_distribution": dict(stats, seq_ops=opstats, seq_variable_kinds=kstats, **conc_stats, stress_rounds_ok=stress_stats),
     "traces_validated_against_impl": conc_stats["interleavings"],
     "nested_handle_scenarios": nested_stats,
+    "nested_list_histories": list_stats,
     "out_of_scope_self_owning_object_scenarios_informational": nested_info,
-    "open_findings_not_counted": [{"key": k, "what": w} for k, w in open_findings],
 }, assumptions=[
     "extraction: ExtrOcamlBasic only; nat/list stay Coq inductives",
     "the interleaving harness is compiled with -DNDEBUG (the asserts of ReferenceCounter would add a plain load, i.e. a scheduling point, to every operation); the sequential harness and the stress run keep the asserts",
     "std::atomic<size_t> is modelled as sequentially consistent, one event per read-modify-write (the source uses the default seq_cst ++/--); the shim gives exactly that semantics; weak-memory behaviour is outside the model and only exercised by the real-thread stress run (ASan, TSan in the thorough tier)",
     "lifetime preconditions of the C++ object model (constructors on raw storage, everything else on constructed handles; use_count() only on non-empty handles) are preconditions of the histories: an operation violating them is skipped by model and harness alike",
-    "model and theorems: the managed type's own destructor/copy constructor do not touch CountingPtr handles (payload is plain data); objects that contain handles are exercised by harness/C12/nested_harness.cpp only (destructor log + ASan) - NOT licensed by the property text, see docs/audit/C12.md",
+    "CPtr.v (all constructors / deleter kinds / unify): the managed type holds plain data. Handles inside managed objects are modelled and proved separately in Nested.v for one member handle per object (lists, shared tails, chains consumed from the head) and tied by harness/C12/list_harness.cpp; trees, containers of handles, unify/swap with member handles are covered by harness/C12/nested_harness.cpp only (destructor log + ASan). Self-owning objects are out of scope (docs/audit/C12.md)",
     "variables are typed in the harness (M/C/N per case); the converting overloads are exercised Obj -> const Obj only; the model knows only the deleter kind of each variable (any assignment) and the theorems cover all histories",
     "an object whose last handle was a no-delete handle stays alive without owner (the no-operation Deleter ran); the harness releases it at the end of the case",
 ])
